@@ -62,8 +62,15 @@ var (
 
 // BOp is one operation of a burst scenario.
 type BOp struct {
-	Kind string   `json:"kind"` // add glv getleaf hval hupd query walk walksorted del delcond walkdel
+	// add glv getleaf hval hupd query walk walksorted del delcond walkdel, and the accessor dimension
+	// (c10_access_test.go): children isbranch tvalue string (on the root for an empty path, else on
+	// the node Get(path) returns), nkids nisbr nval nstr nwalk nwalksorted (on the node the racer
+	// retained from its last lookup), reset (Children() of the root, then one Delete per name returned)
+	Kind string   `json:"kind"`
 	Path []string `json:"path,omitempty"`
+	// Base: (glv getleaf query) invoke the method on the sub-tree node Get(Path[:Base]) with Path[Base:];
+	// (walk walksorted) a non-empty Path walks the sub-tree node Get(Path)
+	Base int `json:"base,omitempty"`
 	Nil  bool     `json:"nil,omitempty"` // add: store nil
 	Odd  bool     `json:"odd,omitempty"` // add, hupd: parity of the (unique) value written; conditional deletes remove even values
 	For  int      `json:"for,omitempty"` // setup getleaf: the racer that starts with this handle
@@ -99,9 +106,51 @@ func (sc *BurstScenario) hasNil() bool {
 }
 
 type burstHandle struct {
-	l    *ctree.Leaf
+	l    *ctree.Leaf // the node, if it is a leaf (hval, hupd)
 	h    int
 	path []string
+	n    *ctree.Tree // the node, whatever its kind (nkids, nisbr, nval, nstr, nwalk)
+}
+
+// retained: what a racer keeps of a lookup (nothing when no node was found).
+func retained(o *HOp, got *ctree.Leaf) burstHandle {
+	if got == nil && o.nd == nil {
+		return burstHandle{}
+	}
+	return burstHandle{l: got, h: o.H, path: o.Path, n: o.nd}
+}
+
+// bind prepares o (a copy of the template) for execution by a goroutine whose
+// retained node is cur and whose operations so far are prev: handle operations
+// get their handle, a Dyn delete the name the preceding Children call returned.
+// ok=false: the operation cannot be performed (nothing retained / no such name).
+func bindOp(o *HOp, cur burstHandle, prev []HOp) (l *ctree.Leaf, ok bool) {
+	switch {
+	case o.Kind == "hval" || o.Kind == "hupd":
+		if cur.l == nil {
+			return nil, false
+		}
+		o.H, o.Path = cur.h, cur.path
+		return cur.l, true
+	case isHeldKind(o.Kind):
+		if cur.n == nil {
+			return nil, false
+		}
+		o.H, o.Path = cur.h, cur.path
+		return (*ctree.Leaf)(cur.n), true
+	case o.Dyn > 0:
+		for i := len(prev) - 1; i >= 0; i-- {
+			if c := &prev[i]; c.Kind == "children" && c.Ret > 0 {
+				if o.Dyn > len(c.Names) {
+					return nil, false
+				}
+				o.Path = []string{c.Names[o.Dyn-1]}
+				return nil, true
+			}
+		}
+		return nil, false
+	}
+	return nil, true
 }
 
 type burstRun struct {
@@ -153,31 +202,53 @@ func (b *burstRun) racer(g int, wg *sync.WaitGroup) {
 	}
 	for i := range ops {
 		o := &ops[i]
-		var l *ctree.Leaf
-		if o.Kind == "hval" || o.Kind == "hupd" {
-			if cur.l == nil {
-				continue
-			}
-			l, o.H, o.Path = cur.l, cur.h, cur.path
+		l, ok := bindOp(o, cur, ops[:i])
+		if !ok {
+			continue
 		}
 		got := perform(b.tr, o, l, b.now)
 		b.ran[g][i] = true
 		if o.Kind == "getleaf" {
-			cur = burstHandle{}
-			if got != nil {
-				cur = burstHandle{got, o.H, o.Path}
-			}
+			cur = retained(o, got)
 		}
 	}
 }
 
 func (b *burstRun) finalWalk(o *HOp) { perform(b.tr, o, nil, b.now) }
 
+// burstHOps turns a scenario operation into the recorded form; the Reset idiom
+// expands into the Children call and one delete per name it may return.
+func burstHOps(g int, o BOp, unique int) []HOp {
+	if o.Kind == "reset" {
+		out := []HOp{{G: g, Kind: "children"}}
+		for k := 1; k <= 3; k++ {
+			out = append(out, HOp{G: g, Kind: "del", Dyn: k})
+		}
+		return out
+	}
+	return []HOp{burstHOp(g, o, unique)}
+}
+
 // toHOp turns a scenario operation into the recorded form (inputs only).
 func burstHOp(g int, o BOp, unique int) HOp {
 	x := HOp{G: g, Kind: o.Kind, Path: o.Path}
-	if o.Kind == "walksorted" {
+	switch o.Kind {
+	case "walksorted":
 		x.Kind, x.Sorted = "walk", true
+	case "nwalksorted":
+		x.Kind, x.Sorted = "nwalk", true
+	case "tvalue":
+		x.Kind, x.Via = "glv", "value"
+	case "string":
+		x.Kind, x.Via, x.Sorted = "walk", "string", true
+	case "nstr":
+		x.Sorted = true
+	}
+	if b := min(max(o.Base, 0), len(o.Path)); b > 0 && (x.Kind == "glv" || x.Kind == "getleaf" || x.Kind == "query") && x.Via == "" {
+		x.Base = b
+	}
+	if x.Kind == "walk" && x.Via == "" && o.Base <= 0 {
+		x.Path = nil // a plain Walk of the root
 	}
 	if isQueryKind(x.Kind) {
 		x.Yield = min(max(o.Yield, 0), 64)
@@ -211,19 +282,21 @@ func (sc *BurstScenario) runOnce(stall, confirm time.Duration) (h *History, stuc
 		x := burstHOp(99, o, 10+i)
 		got := perform(b.tr, &x, nil, b.now)
 		h.Ops = append(h.Ops, x)
-		if x.Kind == "getleaf" && got != nil && n > 0 {
-			b.initial[((o.For%n)+n)%n] = burstHandle{got, x.H, x.Path}
+		if x.Kind == "getleaf" && n > 0 {
+			if hd := retained(&x, got); hd.n != nil {
+				b.initial[((o.For%n)+n)%n] = hd
+			}
 		}
 	}
 	// silent look (read locks only, nobody else is running yet): what do the racers find
 	h.Start = "empty"
 	b.tr.Walk(func([]string, *ctree.Leaf, interface{}) error { h.Start = "populated"; return nil })
 	for g, prog := range sc.Racers {
-		b.ops[g] = make([]HOp, len(prog))
-		b.ran[g] = make([]bool, len(prog))
+		b.ops[g] = nil
 		for i, o := range prog {
-			b.ops[g][i] = burstHOp(g, o, 100*(g+1)+i+1)
+			b.ops[g] = append(b.ops[g], burstHOps(g, o, 100*(g+1)+i+1)...)
 		}
+		b.ran[g] = make([]bool, len(b.ops[g]))
 	}
 	var wg sync.WaitGroup
 	wg.Add(n)
